@@ -153,10 +153,44 @@ func main() {
 			}
 		}
 	}
+	// "defer x.Unlock()" becomes "defer func() { Yield(...); x.Unlock() }()": a
+	// goroutine can then be made to step back (or be parked) while it still
+	// holds the lock, at the end of its critical section - without this a
+	// critical section without a loop or a send in it is atomic for the
+	// simulator, and "what if somebody else comes along while the lock is held"
+	// is never asked.
+	deferred := map[*ast.CallExpr]bool{}
 	ast.Inspect(f, func(n ast.Node) bool {
 		switch n := n.(type) {
+		case *ast.DeferStmt:
+			fn, ok := n.Call.Fun.(*ast.SelectorExpr)
+			if !ok || len(n.Call.Args) != 0 || (fn.Sel.Name != "Unlock" && fn.Sel.Name != "RUnlock") {
+				break
+			}
+			deferred[n.Call] = true
+			a, b := fset.Position(n.Pos()).Offset, fset.Position(n.End()).Offset
+			call := string(src[fset.Position(n.Call.Pos()).Offset:fset.Position(n.Call.End()).Offset])
+			if coop {
+				name := ""
+				switch x := fn.X.(type) {
+				case *ast.Ident:
+					name = x.Name
+				case *ast.SelectorExpr:
+					name = x.Sel.Name
+				}
+				if ptr, known := muNames[name]; known {
+					recv := string(src[fset.Position(fn.X.Pos()).Offset:fset.Position(fn.X.End()).Offset])
+					amp := "&"
+					if ptr {
+						amp = ""
+					}
+					call = "verifyield." + fn.Sel.Name + "(" + amp + recv + ")"
+				}
+			}
+			y := fmt.Sprintf("verifyield.Yield(%q)", fmt.Sprintf("%s@%s:%d", fn.Sel.Name, base, fset.Position(n.Pos()).Line))
+			edits = append(edits, ins{a, "defer func() { " + y + "; " + call + " }()", b - a})
 		case *ast.CallExpr:
-			if !coop || len(n.Args) != 0 {
+			if !coop || len(n.Args) != 0 || deferred[n] {
 				break
 			}
 			fn, ok := n.Fun.(*ast.SelectorExpr)
